@@ -165,14 +165,166 @@ theorem sortByGroup_sorted (cs : List Closure) :
   | nil => simp [sortByGroup]
   | cons c cs ih => exact (hins c _ ih).2
 
+/-! ### the emitted tick: settled reads hold iff a borrower never shares the pipe consumer's subgraph (finding F25) -/
+
+theorem aux_mem_insertByKey (c x : Closure) (l : List Closure) (h : x ∈ insertByKey c l) : x = c ∨ x ∈ l := by
+  induction l with
+  | nil => simpa [insertByKey] using h
+  | cons d ds ih =>
+    simp only [insertByKey] at h
+    split at h
+    · simpa using h
+    · rcases List.mem_cons.mp h with rfl | h
+      · exact Or.inr (by simp)
+      · rcases ih h with h | h
+        · exact Or.inl h
+        · exact Or.inr (by simp [h])
+
+theorem aux_mem_sortByGroup (x : Closure) (cs : List Closure) (h : x ∈ sortByGroup cs) : x ∈ cs := by
+  induction cs with
+  | nil => simp [sortByGroup] at h
+  | cons c cs ih =>
+    rcases aux_mem_insertByKey c x _ h with rfl | h
+    · simp
+    · simp [ih h]
+
+theorem aux_tickWith_no_merge (enemies : Bool) (p : Prog) (sent : List Int) (n : Nat)
+    (h : ∀ c ∈ sortByGroup p.closures, merged enemies p.closures c = false) :
+    tickWith enemies p sent n = some (tickSpec p sent n) := by
+  have h1 : (sortByGroup p.closures).filter (fun c => !merged enemies p.closures c) = sortByGroup p.closures := by
+    rw [List.filter_eq_self]; intro c hc; simp [h c hc]
+  have h2 : (sortByGroup p.closures).filter (merged enemies p.closures) = [] := by
+    rw [List.filter_eq_nil_iff]; intro c hc; simp [h c hc]
+  simp only [tickWith, tickSpec, h1, h2, List.isEmpty_nil, Bool.true_or, ↓reduceIte]
+
+/-- the full C25 clause on the emitted tick, as a function of whether (borrower, pipe consumer) pairs are enemies in
+`find_subgraph_unionfind`: every tick of every corpus-language program (any kind of state, any closures in any
+textual order, any sends, any number of trigger items) does not panic and yields exactly the property's schedule
+`tickSpec` — producers, then the closures group by group each for all its items, then the pipe consumer — in which
+every read is the settled value (`ref_reads_final_value` on `sortByGroup_sorted`). -/
+def RefReadsSettledStatement (enemies : Bool) : Prop :=
+  ∀ (p : Prog) (sent : List Int) (n : Nat), tickWith enemies p sent n = some (tickSpec p sent n)
+
+/-- **With the enemy pairs the clause holds** for every program. -/
+theorem ref_reads_settled_with_enemies : RefReadsSettledStatement true := by
+  intro p sent n
+  exact aux_tickWith_no_merge true p sent n (by intro c _; simp [merged])
+
+/-- **Without them it is refuted** (finding F25): `O;0:r0!` — an `optional()` fed `3`, one reader whose output is
+unioned into the pipe consumer — the reader sees `None` (−1) although the producer stored `Some(3)` in this tick. -/
+theorem ref_reads_settled_refuted : ¬ RefReadsSettledStatement false := by
+  intro h
+  have := h ⟨.opt, [⟨some 0, .read 0, true⟩]⟩ [3] 1
+  revert this
+  decide
+
+/-- the same with a `singleton()`: the tick panics (`as_ref().unwrap()` on the emptied slot) -/
+theorem joined_singleton_reference_panics_refuted :
+    tickWith false ⟨.single 5, [⟨some 0, .read 0, true⟩]⟩ [3] 1 = none := by decide
+
+/-- **Partial result that holds for the code with or without the enemy pairs**: a program none of whose borrowers is
+wired into the pipe consumer reads settled state. -/
+theorem ref_reads_settled_partial (enemies : Bool) (p : Prog) (sent : List Int) (n : Nat)
+    (h : ∀ c ∈ p.closures, c.joined = false) : tickWith enemies p sent n = some (tickSpec p sent n) := by
+  apply aux_tickWith_no_merge
+  intro c hc
+  simp [merged, h c (aux_mem_sortByGroup c _ hc)]
+
+/-- … and so does a borrower wired into the consumer when a closure of a later access group exists (the merge would
+close a cycle and is refused) -/
+theorem later_group_blocks_merge (enemies : Bool) (cs : List Closure) (c d : Closure) (hd : d ∈ cs)
+    (hlt : key c.group < key d.group) : merged enemies cs c = false := by
+  simp only [merged, Bool.and_eq_false_iff, List.all_eq_false]
+  right
+  exact ⟨d, hd, by simp; omega⟩
+
+/-- **The code that exists** (`Gen.borrowerConsumerEnemies` is re-extracted from flat_to_partitioned.rs on every
+run): the clause holds for the current source iff it makes the pairs enemies. -/
+theorem current_code_reads_settled_iff :
+    RefReadsSettledStatement Gen.borrowerConsumerEnemies ↔ Gen.borrowerConsumerEnemies = true := by
+  cases h : Gen.borrowerConsumerEnemies
+  · simp only [Bool.false_eq_true, iff_false]; exact ref_reads_settled_refuted
+  · simp only [iff_true]; exact ref_reads_settled_with_enemies
+
+theorem current_code_is_tickWith (p : Prog) (sent : List Int) (n : Nat) :
+    tick p sent n = tickWith Gen.borrowerConsumerEnemies p sent n := rfl
+
+/-! ### Hydro side: the access groups `handoff_ref.rs` assigns in code order -/
+
+theorem aux_assign_lower (c : Nat) (ms : List Bool) :
+    ∀ a ∈ (Hydro.assign c ms).zip ms, c ≤ a.1 ∧ (a.2 = true → c < a.1) := by
+  induction ms generalizing c with
+  | nil => simp [Hydro.assign]
+  | cons m ms ih =>
+    intro a ha
+    simp only [Hydro.assign, List.zip_cons_cons, List.mem_cons] at ha
+    rcases ha with rfl | ha
+    · cases m <;> simp [Hydro.nextGroup]
+    · have := ih _ a ha
+      cases m <;> simp [Hydro.nextGroup] at this ⊢ <;> omega
+
+/-- **Code order is group order, and every `by_mut` capture is alone in its group**: for two captures of the same node,
+the earlier one's group is ≤ the later one's, and strictly smaller as soon as one of the two is mutable — for every
+sequence of captures and every start value of the counter.  (So the DFIR builder's rules "all references grouped" and
+"every `#mut` in its own group" hold for whatever Hydro emits, and `ref_reads_final_value` applies with
+declaration order = code order.) -/
+theorem hydro_groups_follow_code_order (c : Nat) (ms : List Bool) :
+    ((Hydro.assign c ms).zip ms).Pairwise
+      (fun a b => a.1 ≤ b.1 ∧ ((a.2 = true ∨ b.2 = true) → a.1 < b.1)) := by
+  induction ms generalizing c with
+  | nil => simp [Hydro.assign]
+  | cons m ms ih =>
+    simp only [Hydro.assign, List.zip_cons_cons, List.pairwise_cons]
+    refine ⟨?_, ih _⟩
+    intro b hb
+    have := aux_assign_lower _ ms b hb
+    cases m <;> simp [Hydro.nextGroup] at this ⊢
+    · exact ⟨this.1, fun h => this.2 h⟩
+    · omega
+
+theorem aux_assign_length (c : Nat) (ms : List Bool) : (Hydro.assign c ms).length = ms.length := by
+  induction ms generalizing c with
+  | nil => rfl
+  | cons m ms ih => simp [Hydro.assign, ih]
+
+/-- a `by_mut` capture shares its group with no other capture -/
+theorem hydro_mut_isolated (c : Nat) (ms : List Bool) (i j : Nat) (hi : i < ms.length) (hj : j < ms.length)
+    (hij : i < j) (hm : ms[i] = true ∨ ms[j] = true) :
+    (Hydro.assign c ms)[i]'(by rw [aux_assign_length]; exact hi) <
+      (Hydro.assign c ms)[j]'(by rw [aux_assign_length]; exact hj) := by
+  have hlen := aux_assign_length c ms
+  have hp := hydro_groups_follow_code_order c ms
+  have hzl : ((Hydro.assign c ms).zip ms).length = ms.length := by simp [List.length_zip, hlen]
+  have := List.pairwise_iff_getElem.mp hp i j (by omega) (by omega) hij
+  simp only [List.getElem_zip] at this
+  exact this.2 hm
+
+/-- shared (`by_ref`) captures with no mutable capture between them share one group -/
+theorem hydro_reads_share_group (c n : Nat) : Hydro.assign c (List.replicate n false) = List.replicate n c := by
+  induction n with
+  | zero => rfl
+  | succ k ih => simp [List.replicate_succ, Hydro.assign, Hydro.nextGroup, ih]
+
+/-- read, mut, read, read, mut from a fresh counter: groups 0, 1, 2, 2, 3 -/
+example : Hydro.assign 0 [false, true, false, false, true] = [0, 1, 2, 2, 3] := by decide
+
 /-! ### non-vacuity -/
 
 /-- textual order `#{1} read`, `#{0} mut += 3`: the read sees 5 + 3 (both trigger items), the consumer too -/
-example : tick ⟨false, 5, [⟨some 1, .read 0⟩, ⟨some 0, .add 3⟩]⟩ [] 2 = [(0, 11), (0, 11), (99, 11)] := by decide
+example : tickSpec ⟨.single 5, [⟨some 1, .read 0, false⟩, ⟨some 0, .add 3, false⟩]⟩ [] 2 = [(0, 11), (0, 11), (99, 11)] := by
+  decide
 
 /-- three groups 0 < 1 < 3 (no group 2): the edges 0→1 and 1→3 order 0 before 3 -/
 example :
     let t : Target := ⟨0, [1], [2], [⟨10, some 0, true⟩, ⟨11, some 1, false⟩, ⟨12, some 3, true⟩]⟩
     accessGroupPairs t = [(10, 11), (11, 12)] := by decide
+
+/-- F25 on the model: `O;0:a2;1:r0!` fed 3 — the mutator (group 0, its own subgraph) runs first and the consumer gets
+5, the joined reader of the last group sees the emptied slot (−1); with the enemy pairs it sees 5 -/
+example : tickWith false ⟨.opt, [⟨some 0, .add 2, false⟩, ⟨some 1, .read 0, true⟩]⟩ [3] 1 = some [(0, -1), (99, 5)] := by decide
+example : tickWith true ⟨.opt, [⟨some 0, .add 2, false⟩, ⟨some 1, .read 0, true⟩]⟩ [3] 1 = some [(0, 5), (99, 5)] := by decide
+
+/-- a later group blocks the merge: `O;0:r0!;1:r1` reads 3 in both -/
+example : tickWith false ⟨.opt, [⟨some 0, .read 0, true⟩, ⟨some 1, .read 1, false⟩]⟩ [3] 1 = some [(0, 3), (1, 3), (99, 3)] := by decide
 
 end HvTick.Refs
